@@ -27,7 +27,7 @@ def content(m, ver, lk, layout, back=False):
     """module m at version ver; back: the last module star-imports the first one (an import cycle)"""
     n = NAMES[m]
     lines = ['# %s version %d' % (n, ver)]
-    if back and m == 3:
+    if back == 1 and m == 3:
         lines.append('from mb import *')
     if m < 3:
         nxt = NAMES[m + 1]
@@ -47,6 +47,8 @@ def content(m, ver, lk, layout, back=False):
                 # names of module 3 that travel through module 2
                 names.append('md' if lk[1] in ('import', 'frompkg') else 'md_tag')
             lines.append('from %s import %s' % (nxtmod, ', '.join(names)))
+    if back == 2 and m == 2:
+        lines.append('from mb import *')      # after the module's own import: the later star import shadows the earlier one
     lines += [''] * ver          # the definitions move with the version
     lines.append('%s_v%d = %d' % (n, ver, ver))
     lines.append('class %s_tag(object):' % n)
@@ -99,6 +101,11 @@ def batch(project, root, lk, rel=False, layout='flat', entries=False):
                 return ['ok', f(pr, *a)]
             except Exception as e:  # noqa
                 return ['exc', type(e).__name__, str(e)]
+    if entries == 2:
+        # the long-lived project meets the cycle at the middle module first (a newly created one always where the request enters)
+        mod = 'pk.mc' if layout == 'pkg' else 'mc'
+        src = 'import %s as zz\nzz.' % mod
+        reply.append(['names-first-mc', call(assistant.assist, src, (2, 3), mainfile)])
     # names of mb
     src = 'import mb\nmb.'
     r = call(assistant.assist, src, (2, 3), mainfile)
